@@ -153,6 +153,7 @@ type Outcome struct {
 	// and at final quiescence: after a nil return nothing more may happen
 	WritesAtReturn, VisitsAtReturn, MutOpsAtReturn int
 	LateEffects                                    string
+	StaleNodes                                     string
 }
 
 func errStr(e error) string {
@@ -250,6 +251,7 @@ func invoke(op Op, w io.Writer, r io.Reader, root *gtree.Node, cb *simCallback, 
 				simrt.Yield("stub:consumer")
 			}
 			cb.visits = append(cb.visits, visitOf(wn))
+			cb.ptrs = append(cb.ptrs, wn)
 			if cb.Fired {
 				cb.after++
 			}
@@ -366,6 +368,7 @@ func collect(out *Outcome, rd *simReader, wr *simWriter, cb *simCallback, d *sim
 	out.Segs = wr.segs
 	out.Visits = cb.visits
 	out.CbAfter = cb.after
+	out.StaleNodes = cb.staleNodes()
 	out.ReaderFired, out.ReaderErr = rd.Fired, rd.Err
 	out.WriterFired, out.WriterErr = wr.Fired, wr.Err
 	out.WriterRefused = wr.Refused
